@@ -97,7 +97,7 @@ class Noise:
 
 
 @contextlib.contextmanager
-def patched(noise=None):
+def patched(noise=None, complex_objects=False):
     """re-bind the substrate entry points that cannot take object arrays (in this process only)"""
     import nifty.cl.any_array as aa
     import nifty.cl.random as rnd
@@ -109,12 +109,52 @@ def patched(noise=None):
             return sum((x.conjugate() if hasattr(x, "conjugate") else np.conj(x)) * y for x, y in zip(a.ravel(), b.ravel()))
         return old_vdot(a, b)
     aa.cpu_vdot = vdot
+    old_real, old_imag = aa.AnyArray.real, aa.AnyArray.imag
+
+    def _part(which, old):
+        def get(self):
+            if isinstance(self._val, np.ndarray) and self._val.dtype == object:    # ndarray.real is the identity on object arrays
+                out = np.empty(self._val.size, dtype=object)
+                for i, x in enumerate(self._val.ravel()):
+                    out[i] = getattr(x, which) if hasattr(x, which) else getattr(np.asarray(x), which)[()]
+                return aa.AnyArray(out.reshape(self._val.shape))
+            return old.fget(self)
+        return property(get)
+    aa.AnyArray.real, aa.AnyArray.imag = _part("real", old_real), _part("imag", old_imag)
     if noise is not None:
         rnd.Random.normal = staticmethod(noise.normal)
+    import nifty.cl.operators.diagonal_operator as dmod
+    old_mc, old_dc = dmod.mul_conj2, dmod.div_conj2
+
+    def _objarr(a):
+        return getattr(getattr(a, "_val", None), "dtype", None) == object
+    dmod.mul_conj2 = lambda a, b: a * b.conj() if (_objarr(a) or _objarr(b)) else old_mc(a, b)
+    dmod.div_conj2 = lambda a, b: a / b.conj() if (_objarr(a) or _objarr(b)) else old_dc(a, b)
+    saved_ict = []
+    if complex_objects:
+        # object arrays may hold complex expressions: dtype tests of the library must not take the 'real' shortcut
+        import importlib
+        import nifty.cl.utilities as ut
+        old_ict = ut.iscomplextype
+
+        def ict(dtype):
+            if not isinstance(dtype, dict) and dtype == object:
+                return True
+            return old_ict(dtype)
+        for mn in ("nifty.cl.utilities", "nifty.cl.operators.diagonal_operator", "nifty.cl.operators.energy_operators",
+                   "nifty.cl.operators.harmonic_operators", "nifty.cl.sugar"):
+            m = importlib.import_module(mn)
+            if hasattr(m, "iscomplextype"):
+                saved_ict.append((m, m.iscomplextype))
+                m.iscomplextype = ict
     try:
         yield
     finally:
+        for m, f in saved_ict:
+            m.iscomplextype = f
+        dmod.mul_conj2, dmod.div_conj2 = old_mc, old_dc
         aa.cpu_vdot = old_vdot
+        aa.AnyArray.real, aa.AnyArray.imag = old_real, old_imag
         rnd.Random.normal = old_normal
 
 
@@ -135,11 +175,19 @@ def dense(op, dom, n, mode="times"):
 import sympy as sp  # noqa: E402
 
 
+_KNOWN_FLOATS = {float(c.evalf(30)): c for c in (sp.pi, 2 * sp.pi, sp.pi / 2, sp.E, sp.log(2), sp.log(10), 1 / sp.log(10), 1 / sp.log(2),
+                                                   sp.sqrt(2 * sp.pi), 1 / sp.sqrt(2 * sp.pi), sp.sqrt(sp.pi), 1 / sp.pi, sp.log(2 * sp.pi))}
+
+
 def _float_literal(f):
     """mathematical reading of a float that reaches a symbolic expression (assumption 'machine arithmetic treated as
     mathematical'): the nearby simple rational, or -- for a float that is the correctly rounded square root of a rational with
     denominator <= 1000, such as np.sqrt(0.5) -- that square root"""
     import math
+    if f in _KNOWN_FLOATS:
+        return _KNOWN_FLOATS[f]
+    if -f in _KNOWN_FLOATS:
+        return -_KNOWN_FLOATS[-f]
     r = sp.nsimplify(f, rational=True)
     if r.q <= 10 ** 6 or f != f or f in (float("inf"), float("-inf")):
         return r
@@ -211,21 +259,52 @@ class SX(numbers.Number):
 
     def __eq__(self, o):
         try:
-            return bool(sp.simplify(self.e - _U(o)) == 0)
+            d = self.e - _U(o)
         except (sp.SympifyError, TypeError):
             return False
+        if d == 0 or sp.simplify(d) == 0:
+            return True
+        if SX.shadow is not None and d.free_symbols:
+            if abs(complex(sp.N(d.subs(SX.shadow), 40))) < 1e-30:
+                raise symx.EngineLimit(f"concolic shadow point lies on the surface {d} == 0; choose a generic shadow")
+            SX.pc.append(sp.Ne(d, 0))
+        return False
 
     def __ne__(self, o):
         return not self.__eq__(o)
 
     __hash__ = None
 
+    # concolic mode: comparisons sympy cannot decide are decided at the shadow point (symbol -> exact number) and recorded in pc;
+    # the run then represents the whole region of inputs with the same comparison outcomes
+    shadow = None
+    pc = []
+
+    @classmethod
+    @contextlib.contextmanager
+    def concolic(cls, shadow):
+        old = cls.shadow, cls.pc
+        cls.shadow, cls.pc = dict(shadow), []
+        try:
+            yield cls.pc
+        finally:
+            cls.shadow, cls.pc = old
+
     def _cmp(self, o, rel):
-        r = sp.simplify(rel(self.e, _U(o)))
-        if r is sp.true:
+        other = _U(o)
+        r = rel(self.e, other)
+        if r not in (sp.true, sp.false):
+            r = sp.simplify(r)
+        if r is sp.true or r is True:
             return True
-        if r is sp.false:
+        if r is sp.false or r is False:
             return False
+        if SX.shadow is not None:
+            a, b = sp.N(self.e.subs(SX.shadow), 40), sp.N(sp.sympify(other).subs(SX.shadow), 40)
+            if a.is_real and b.is_real and a != b:
+                out = bool(rel(a, b))
+                SX.pc.append(rel(self.e, other) if out else sp.Not(rel(self.e, other)))
+                return out
         raise symx.EngineLimit(f"sympy element: undecidable comparison {r}")
 
     def __lt__(self, o):
@@ -241,6 +320,10 @@ class SX(numbers.Number):
         return self._cmp(o, sp.Ge)
 
     def __bool__(self):
+        if self.e.is_number:
+            return bool(self.e != 0)
+        if SX.shadow is not None:
+            return not self.__eq__(0)
         raise symx.EngineLimit("truth value of a sympy element")
 
     def __float__(self):
@@ -330,3 +413,93 @@ def refute_numerically(e, symbols, domain=None, n=24, seed=0):
         if abs(val) > 1e-25:
             return {str(k): str(v) for k, v in pt.items()}, val
     return None, None
+
+
+class _Timeout(Exception):
+    pass
+
+
+def _with_alarm(seconds, fn):
+    import signal
+
+    def h(sig, frm):
+        raise _Timeout()
+    old = signal.signal(signal.SIGALRM, h)
+    signal.alarm(seconds)
+    try:
+        return fn()
+    except _Timeout:
+        return None
+    finally:
+        signal.alarm(0)
+        signal.signal(signal.SIGALRM, old)
+
+
+def _points(e, pc, n, seed, domain=None, extra=()):
+    """exact rational test points for the free symbols of e that satisfy the recorded path condition pc"""
+    import random
+    rnd = random.Random(seed)
+    syms = sorted(set(e.free_symbols).union(*[sp.sympify(x).free_symbols for x in list(extra) + list(pc or ())]), key=str)
+    out, tries = [], 0
+    while len(out) < n and tries < 40 * n:
+        tries += 1
+        pt = {}
+        for s in syms:
+            lo, hi = (domain or {}).get(str(s), (-2, 2))
+            if s.is_positive:
+                lo = max(lo, sp.Rational(1, 10))
+            if s.is_negative:
+                hi = min(hi, -sp.Rational(1, 10))
+            v = sp.Rational(rnd.randint(int(lo * 100), int(hi * 100)), 100)
+            if s.is_real is not True and s.is_positive is not True and s.is_negative is not True:
+                v = v + sp.I * sp.Rational(rnd.randint(-150, 150), 100)
+            pt[s] = v
+        ok = True
+        for c in pc or ():
+            try:
+                if not bool(c.subs(pt)):
+                    ok = False
+                    break
+            except TypeError:
+                ok = False
+                break
+        if ok:
+            out.append(pt)
+    return out
+
+
+def zero_status(e, pc=None, domain=None, n=10, simplify_seconds=8, seed=0, scale_exprs=None, abs_tol=0.):
+    """decide e == 0 (on the region described by pc): (status, backend, detail).
+    'discharged'/'sympy'            : reduced to 0 symbolically
+    'refuted'/'sympy'               : non-zero at an exact rational point inside the region (the witness)
+    'discharged'/'sympy-points'     : sympy could not reduce the residue within the time budget; it vanishes (relative 1e-12,
+                                      which absorbs the rounding of transcendental float literals in the source) at n exact points"""
+    e = sp.sympify(e)
+    if e == 0:
+        return "discharged", "sympy", ""
+    pts = _points(e, pc, n, seed, domain, extra=scale_exprs or ())
+    worst = None
+    for pt in pts:
+        try:
+            sub = e.subs(pt)
+            val = complex(sp.N(sub, 40))
+            scale = sum(abs(complex(sp.N(a, 40))) for a in (sub.args if isinstance(sub, sp.Add) else (sub,)))
+            terms = scale_exprs if scale_exprs is not None else (e.args if isinstance(e, sp.Add) else (e,))
+            scale = max(scale, sum(abs(complex(sp.N(sp.sympify(a).subs(pt), 40))) for a in terms))
+        except Exception:  # noqa: BLE001
+            continue
+        if val != val or abs(val) > 1e-12 * (scale + 1e-300) + abs_tol:
+            return "refuted", "sympy", f"residue {str(e)[:300]} is {val} at {{{', '.join(f'{k}: {v}' for k, v in pt.items())}}}"
+        worst = max(worst or 0., abs(val))
+    r = _with_alarm(simplify_seconds, lambda: sp.simplify(e)) if not abs_tol else None
+    if r is not None and r == 0:
+        return "discharged", "sympy", ""
+    if not pts:
+        return "undecided", "sympy", f"no test point satisfies the path condition; residue {str(e)[:200]}"
+    return "discharged", "sympy-points", f"vanishes at {len(pts)} exact points (largest |residue| {worst:.1e}); sympy left {str(r if r is not None else e)[:120]}"
+
+
+def eq_status(a, b, **kw):
+    """decide a == b; the tolerance for float-literal rounding is relative to |a| + |b|"""
+    a, b = sp.sympify(a), sp.sympify(b)
+    return zero_status(a - b, scale_exprs=(a, b), **kw)
